@@ -8,7 +8,9 @@ package tree
 //verif:case C01,C03 thorough VerifTreeSeq 0..1 5 @variant=bf4 @unwind=600
 //verif:case C01,C03 quick VerifTreeLookupCost 1 -1 @unwind=600
 //verif:case C01,C03 quick VerifTreeLookupCost 2 1..2 @unwind=600
-//verif:case C01,C03 quick VerifTreeLookupCost 1..3 -1 @variant=bf4 @unwind=600
+//verif:case C01,C03 quick VerifTreeLookupCost 1..2 -1 @variant=bf4 @unwind=600
+//verif:case C01,C03 quick VerifTreeLookupCost 3 1 @variant=bf4 @unwind=600
+//verif:case C01,C03 thorough VerifTreeLookupCost 3 2..3 @variant=bf4 @unwind=600
 
 type vCK struct {
 	cls int16 // the order compares cls only
